@@ -1,1 +1,97 @@
-import Hyeong.Model.Debug
+import Hyeong.Lemmas.DbgRun
+/-!
+# C11 — the debugger shows the true state, steps back exactly, and never crashes
+
+`HyE.dbgTrans` / `debugLoop` / `debugSession` model `src/app/debug.rs` (after the repairs D8, D13): one
+loop iteration is either one running step / breakpoint stop or one prompt with the command read from
+the script.  `Chain` says the history is a chain of real `execute_one` results.  Property theorems only.
+-/
+namespace HyE.C11
+open HyE HyP
+variable {N : Type} [NumOps N] [ShowN N]
+
+/-- No command sequence makes the debugger crash: for every source text and every script the session
+ends by exit, by a diagnosed error, or is still going when the fuel runs out — never in a Rust panic
+(unwrap on an empty history, command index or breakpoint index out of bounds). -/
+theorem dbg_no_crash (fuel : Nat) (path fname src script : List Char) (w : String) :
+    (debugSession (N := N) fuel path fname src script).2 ≠ .crash w := by
+  unfold debugSession
+  exact debugLoop_no_crash fname _ _ (by simp) fuel _ _ _ ⟨by simp, by intro b hb; simp at hb; exact Or.inl hb⟩ w
+
+/-- the invariant behind it, preserved by every loop iteration: a current snapshot always exists and
+every breakpoint is 0 or a valid command index (`break N` with `N ≥` length is refused) -/
+theorem invariant_preserved (fname : List Char) (pcode : List PCmd) (code : List Cmd) (hlen : pcode.length = code.length)
+    (lines : List (List Char)) (d : Dbg N) (hinv : DbgInv code.length d) :
+    (∀ t w, dbgTrans fname pcode code lines d ≠ .done t (.crash w)) ∧
+    (∀ lines' d' t, dbgTrans fname pcode code lines d = .cont lines' d' t → DbgInv code.length d') :=
+  ⟨fun t w => dbgTrans_no_crash fname pcode code hlen lines d hinv t w,
+   fun l' d' t h => dbgTrans_inv fname pcode code hlen lines d hinv l' d' t h⟩
+
+/-- History invariant: every loop iteration leaves the history a chain of real interpreter steps from
+the initial state, and changes it only by pushing one step on top (`next`, `run`, running) or by
+removing the newest snapshot (`previous`) — older snapshots are never mutated. -/
+theorem hist_inv (fname : List Char) (pcode : List PCmd) (code : List Cmd)
+    (lines : List (List Char)) (d : Dbg N) (hc : Chain code d.hist) (lines' : List (List Char)) (d' : Dbg N) (t : List Char)
+    (h : dbgTrans fname pcode code lines d = .cont lines' d' t) :
+    Chain code d'.hist ∧ (d'.hist = d.hist ∨ d'.hist.tail = d.hist ∨ d'.hist = d.hist.tail) :=
+  dbgTrans_chain fname pcode code lines d hc lines' d' t h
+
+/-- The displayed state is the true state: for an input-free program the snapshot on top of a history
+with `k` older entries is exactly the interpreter's state and location after `k` commands. -/
+theorem state_shows_true_state (code : List Cmd) (hn : ∀ c ∈ code, NoIn c) (rest : List (Snap N)) (top : Snap N)
+    (hc : Chain code (top :: rest)) (w0 : World) :
+    ∃ w', iterOk code rest.length ⟨(St.init, w0), 0⟩ = some ⟨(top.st, w'), top.loc⟩ :=
+  (chain_run code hn rest top hc).2 w0
+
+/-- `state` prints the snapshot on top of the history and changes nothing -/
+theorem state_command (fname : List Char) (pcode : List PCmd) (code : List Cmd) (l : List Char) (rest : List (List Char))
+    (d : Dbg N) (sn : Snap N) (older : List (Snap N)) (hh : d.hist = sn :: older) (hl : sn.loc < code.length)
+    (hr : d.running = false) (hcmd : (splitSpaces (trim l)).headD [] = "s".toList) :
+    dbgTrans fname pcode code (l :: rest) d = .cont rest d (prompt ++ showState sn) := by
+  have h1 : ¬ sn.loc ≥ code.length := by omega
+  have e1 : ¬ ("s".toList = "next".toList ∨ "s".toList = "n".toList) := by decide
+  have e2 : ¬ ("s".toList = "previous".toList ∨ "s".toList = "p".toList) := by decide
+  have e3 : ¬ ("s".toList = "run".toList ∨ "s".toList = "r".toList) := by decide
+  have e4 : ("s".toList = "state".toList ∨ "s".toList = "s".toList) := by decide
+  unfold dbgTrans
+  simp only [hh, h1, ↓reduceIte, hr, Bool.false_eq_true, hcmd, e1, e2, e3, e4, or_true]
+
+/-- `previous` restores precisely the state before the last step: the new history is the old one
+without its newest snapshot (and at the start nothing changes) -/
+theorem previous_exact (fname : List Char) (pcode : List PCmd) (code : List Cmd) (l : List Char) (rest : List (List Char))
+    (d : Dbg N) (sn : Snap N) (older : List (Snap N)) (hh : d.hist = sn :: older) (hl : sn.loc < code.length)
+    (hr : d.running = false) (hcmd : (splitSpaces (trim l)).headD [] = "p".toList) :
+    dbgTrans fname pcode code (l :: rest) d =
+      match older with
+      | [] => .cont rest d (prompt ++ errLine "can't go back".toList)
+      | _ :: _ => .cont rest { d with hist := older } (prompt ++ logLine "moved back".toList) := by
+  have h1 : ¬ sn.loc ≥ code.length := by omega
+  have e1 : ¬ ("p".toList = "next".toList ∨ "p".toList = "n".toList) := by decide
+  have e2 : ("p".toList = "previous".toList ∨ "p".toList = "p".toList) := by decide
+  unfold dbgTrans
+  simp only [hh, h1, ↓reduceIte, hr, Bool.false_eq_true, hcmd, e1, e2, or_true]
+  cases older <;> simp [hr]
+
+/-- `run` stops at the first command carrying a breakpoint: while running, an iteration at a
+breakpoint executes nothing, shows the pending output and returns to the prompt; elsewhere it executes
+exactly one command and keeps running. -/
+theorem run_stops_first_bp (fname : List Char) (pcode : List PCmd) (code : List Cmd) (lines : List (List Char))
+    (d : Dbg N) (sn : Snap N) (older : List (Snap N)) (hh : d.hist = sn :: older) (hl : sn.loc < code.length)
+    (hr : d.running = true) :
+    dbgTrans fname pcode code lines d =
+      if d.bps.contains sn.loc then .cont lines { (flushBufs d).1 with running := false } (flushBufs d).2
+      else match dbgStep code lines d with
+        | .error (e, t) => .done t e
+        | .ok d' => .cont lines d' [] := by
+  have h1 : ¬ sn.loc ≥ code.length := by omega
+  unfold dbgTrans
+  simp only [hh, h1, ↓reduceIte, hr]
+  split <;> rfl
+
+/-- output is shown exactly once: flushing prints the two buffers and empties them; a step only
+appends to them (the buffers it starts from are a prefix of the buffers it ends with) -/
+theorem output_once (d : Dbg N) :
+    (flushBufs d).2 = showBuffers d.bufO d.bufE ∧ (flushBufs d).1.bufO = [] ∧ (flushBufs d).1.bufE = [] ∧
+    (flushBufs d).1.hist = d.hist := ⟨rfl, rfl, rfl, rfl⟩
+
+end HyE.C11
